@@ -397,6 +397,26 @@ impl Block {
             return self.tokens.as_mut().unwrap().final_token.as_mut().unwrap();
         }
 
+        // the semicolon that closes the last statement is the last token of the block
+        let has_last_statement = self.last_statement.is_some();
+        let last_semicolon_index = self.statements.len().saturating_sub(1);
+        let has_semicolon = self.tokens.as_ref().is_some_and(|tokens| {
+            if has_last_statement {
+                tokens.last_semicolon.is_some()
+            } else {
+                matches!(tokens.semicolons.get(last_semicolon_index), Some(Some(_)))
+            }
+        });
+
+        if has_semicolon {
+            let tokens = self.tokens.as_mut().unwrap();
+            return if has_last_statement {
+                tokens.last_semicolon.as_mut().unwrap()
+            } else {
+                tokens.semicolons[last_semicolon_index].as_mut().unwrap()
+            };
+        }
+
         if let Some(last_stmt) = self.last_statement.as_mut() {
             return last_stmt.mutate_last_token();
         }
